@@ -39,6 +39,34 @@ Walk(g, m, vs, i, seen) ==
 ItemByName(P, s) == CHOOSE it \in AllItems(P) : Full(it) = s
 KindByName(g, s) == (CHOOSE n \in g.nodes : n.name = s).kind
 
+\* Diagnosis of a `targets` mismatch (part of the clause name, so that distinct causes get distinct keys):
+\*   direction   extra (reported although its dependency is disabled/blocked) | missing
+\*   what        <sibling|only|unq|free>@<mod|free> (how the called name resolves, where the caller lives),
+\*               module (a USEd module name), symbol (a name of an ONLY list)
+\*   :global     the name is excluded by the global disable list alone (not by the item's own lists)
+\* (kept short: TLC wraps printed tuples longer than 80 columns, which the verdict parser does not read)
+HowResolved(P, pr, x) ==
+  IF IsSibling(P, pr, x) THEN "sibling" ELSE IF QualMods(P, pr, x) # {} THEN "only"
+  ELSE IF UnqualMods(P, pr, x) # {} THEN "unq" ELSE "free"
+TargetsClause(P, C, it, obs) ==
+  LET exp == TargetsOf(P, C, it)
+      extra == obs \ exp
+      x == IF extra # {} THEN CHOOSE y \in extra : TRUE ELSE CHOOSE y \in exp \ obs : TRUE
+      dir == IF extra # {} THEN "extra" ELSE "missing"
+      isProc == it.kind = "proc"
+      pr == ProcRecOf(P, it)
+      imps == IF isProc THEN Range(pr.imports) ELSE Range(ModRec(P, it.local).imports)
+      isCall == isProc /\ x \in Range(pr.calls)
+      what == IF isCall THEN HowResolved(P, pr, x) \o (IF pr.mod = "" THEN "@free" ELSE "@mod")
+              ELSE IF x \in ModNames(P) THEN "module"
+              ELSE IF \E im \in imps : x \in Range(im.only) THEN "symbol" ELSE "unknown-name"
+      names == IF isCall THEN NamesOf(Resolve(P, pr, x), TRUE)
+               ELSE IF x \in ModNames(P) THEN {x}
+               ELSE UNION {VarNames(im.mod, x) : im \in {i \in imps : x \in Range(i.only)}}
+      ic == ItemConf(C, it)
+      globalOnly == names # {} /\ Hits(P, Range(C.disable), names, TRUE) /\ ~Hits(P, ic.disable \cup ic.block, names, TRUE)
+  IN "targets:" \o dir \o ":" \o what \o (IF globalOnly THEN ":global" ELSE "")
+
 \* per-visit payload: dispatch method, strategy, role, mode, targets
 Payload(c, g, m) ==
   LET vs == c.visits
@@ -51,7 +79,7 @@ Payload(c, g, m) ==
                 IN IF v.meth # SP!MethodOf(KindByName(g, v.item)) THEN "method"
                    ELSE IF v.role # ic.role THEN "role"
                    ELSE IF v.mode # ic.mode THEN "mode"
-                   ELSE IF SeqRange(v.targets) # TargetsOf(c.P, c.C, it) THEN "targets"
+                   ELSE IF SeqRange(v.targets) # TargetsOf(c.P, c.C, it) THEN TargetsClause(c.P, c.C, it, SeqRange(v.targets))
                    ELSE "ok"
       firstBad == {i \in DOMAIN vs : bad(i) # "ok"}
   IN IF firstBad = {} THEN <<"ok", 0>>
